@@ -29,6 +29,10 @@ The two lazily built collections must not share output keys unless their stand-a
 ``<op>:<param>-not-in-name:siblings-share-keys``); for a seeded ~15 % of the cases both are also computed in one graph and
 compared with their stand-alone values (``<op>:<param>:differs-when-computed-with-sibling``).  Counters siblings_built /
 siblings_computed_together / siblings_with_different_values have floors.
+GENUINE (fixes_ready/SIB_01): ``x.reshape(s, merge_chunks=False)`` and ``x.reshape(s, merge_chunks=True)`` are both named
+``"reshape-" + tokenize(x, s)`` although their blocks differ (chunks (1,)*6 vs (1, 2, 1, 2)); equal assembled values,
+different values under the shared keys: ``da.concatenate([a, b]).compute()`` raises 'Missing dependency'.  Label
+``reshape:merge_chunks-not-in-name:siblings-share-keys`` fires on the tree without that fix.
 """
 from __future__ import annotations
 
